@@ -175,4 +175,35 @@ theorem sum_map_const_one (l : List Nat) : (l.map fun _ => (1 : Rat)).sum = (l.l
   | nil => simp
   | cons x r ih => simp only [List.map_cons, List.sum_cons, List.length_cons, ih]; push_cast; ring
 
+/-! ### spin products: every listed index multiplies once -/
+
+/-- the product `calculate_spin_product_autocorrelation` forms for one list of variables -/
+def spinProd (state : List Bool) (vs : List Nat) : Rat :=
+  (vs.map fun v => spinVal (state.getD v false)).foldl (· * ·) 1
+
+theorem foldl_mul_eq (a : Rat) (l : List Rat) : l.foldl (· * ·) a = a * l.foldl (· * ·) 1 := by
+  induction l generalizing a with
+  | nil => simp
+  | cons x r ih => simp only [List.foldl_cons]; rw [ih (a * x), ih (1 * x)]; ring
+
+theorem spinProd_nil (state : List Bool) : spinProd state [] = 1 := rfl
+
+theorem spinProd_cons (state : List Bool) (v : Nat) (vs : List Nat) :
+    spinProd state (v :: vs) = spinVal (state.getD v false) * spinProd state vs := by
+  unfold spinProd
+  simp only [List.map_cons, List.foldl_cons]
+  rw [foldl_mul_eq]; ring
+
+theorem spinProd_append (state : List Bool) (a b : List Nat) :
+    spinProd state (a ++ b) = spinProd state a * spinProd state b := by
+  induction a with
+  | nil => simp [spinProd_nil]
+  | cons v r ih => rw [List.cons_append, spinProd_cons, spinProd_cons, ih]; ring
+
+theorem spinVal_sq (b : Bool) : spinVal b * spinVal b = 1 := by
+  cases b <;> simp [spinVal]
+
+theorem prodMapper_eq (prods : List (List Nat)) (state : List Bool) :
+    prodMapper prods state = prods.map (spinProd state) := rfl
+
 end Qmc
